@@ -38,7 +38,9 @@ T_PATS = ['q1', 'q1 ', '^test_q1 ', 'q0|q10', '^test_q0|q2', 'T_q2', 'nomatch',
           # patterns that look at the tail of the id: class, method, ')'
           r'T_q1\.test_q1\)$', r'\(vtw\.tests\.T_q2\)', r'T_q10\)', r'\.test_q\d+\)$']
 L_PATS = ['A', 'A$', 'AB', r'tests\.A$|B$', '^vtw', 'B$', 'nomatch', 'UnitTests',
-          '^zope|AB$']
+          '^zope|AB$',
+          # regex syntax that contains a comma
+          r'tests\.A{1,2}$', r'A[,B]$', r'AB{0,1}$']
 
 
 def spec_accept(patterns, name):
